@@ -449,7 +449,6 @@ func usedAfterSort(u ssa.Instruction, p *ssa.Phi) bool {
 	return false
 }
 
-
 func substP(e *Engine, t *Term, ren map[*Term]*Term, memo map[*Term]*Term) *Term {
 	if e.detCur != nil {
 		before := len(ren)
